@@ -108,7 +108,7 @@ PROPS['C11']['level_text'] = ("Proved for all filter trees and all value strings
 PROPS['C13']['level_text'] = ("Proved: list rendering (one begin/end block for N >= 2, the bare command for N = 1) for all lists, and positional pairing of all eight tuple impls (expanded from the macro) against ghost command/response specs of the Command trait. "
     "The Vec<C> impl is iterator-adaptor code outside Verus' reach: bounded stand-in listpair (by parametricity nearly exhaustive); the framing literals are decided by execution")
 
-PROPS['C17'] = {'units': ['C'], 'spec_tags': ['sess'], 'bounded': [],
+PROPS['C17'] = {'units': ['C'], 'spec_tags': ['sess'], 'bounded': ['clientsim'],
     'trusted': ['ENVIRONMENT MODEL (hypothesis of the property, introduced by `assume` at the four request sites of Client::album_art and nowhere else): the server holds, per URI, an optional embedded picture and an optional cover file (bytes + MIME type), '
                 'knows readpicture or answers it with error code 5, has a chunk limit >= 1, and answers every albumart/readpicture request at offset o either with an error or with the total size, the type and the bytes [o, min(o+limit, size)); albumart carries no type field',
                 'the reply of a typed command is what Client::command returns; its relation to the frame is the separately proved contract of AlbumArt::from_frame (C17.album_art.*) and Client::command (frame of the right request: C01)',
